@@ -71,6 +71,10 @@ type PFCPConn struct {
 	shutdownStarted atomic.Bool
 
 	pendingReqs sync.Map
+
+	// held while a session message is handled and while Shutdown removes the sessions, so that the two never
+	// interleave: a request is handled completely before the clean-up, or not at all after it
+	sessionsMu sync.Mutex
 }
 
 func (pConn *PFCPConn) startHeartBeatMonitor() {
@@ -253,6 +257,8 @@ func (pConn *PFCPConn) Shutdown() {
 	}
 
 	// Cleanup all sessions in this conn
+	pConn.sessionsMu.Lock()
+
 	for _, sess := range pConn.store.GetAllSessions() {
 		pConn.upf.SendMsgToUPF(upfMsgTypeDel, sess.PacketForwardingRules, PacketForwardingRules{})
 
@@ -262,6 +268,8 @@ func (pConn *PFCPConn) Shutdown() {
 
 		pConn.RemoveSession(sess)
 	}
+
+	pConn.sessionsMu.Unlock()
 
 	rAddr := pConn.RemoteAddr().String()
 	pConn.done <- rAddr
